@@ -19,6 +19,9 @@ import (
 
 var _ = time.Second
 
+func priceTick(x sdk.Dec) sdk.Dec              { return amm.PriceToDownTick(x, 4) }
+func offerAmtBuy(p sdk.Dec, a sdk.Int) sdk.Int { return amm.OfferCoinAmount(amm.Buy, p, a) }
+
 func i(n int64) sdk.Int { return sdk.NewInt(n) }
 
 // Base is the scripted part of every workload: configuration, then one pass through every DeFi module with
@@ -211,4 +214,11 @@ func (g *Gen) swapOpen() {
 	mk("u1", 1, true, []uint64{}, 1_000_003, 7)
 	mk("u2", 3, false, []uint64{}, 777_777, 5)
 	mk("u1", 2, false, []uint64{}, 500_001, 3)
+}
+
+// Tail appends n seeded random blocks (filled in later).
+func (g *Gen) Tail(n int) {
+	for k := 0; k < n; k++ {
+		g.next(6)
+	}
 }
